@@ -11,6 +11,7 @@ import (
 	"sync"
 	"testing"
 	"testing/synctest"
+	"time"
 
 	goat "github.com/avos-io/goat"
 	"github.com/avos-io/goat/gen/goatorepo"
@@ -215,8 +216,11 @@ func runWs(t *testing.T, sc wsScenario) (steps []string, desc []string, big *big
 		var cancelRead context.CancelFunc
 		var wg sync.WaitGroup
 		for _, a := range sc.Acts {
+			trStep()
 			var act string
 			switch a.Op {
+			case "K": // the virtual clock advances: no action of the model
+				time.Sleep(time.Second)
 			case "W":
 				e := sc.Envs[a.E].E
 				act = "WsWrite " + coqRpc(e, big)
@@ -317,7 +321,9 @@ func TestC19Ws(t *testing.T) {
 	emit := func(sc wsScenario) {
 		if want(idx) {
 			em.Marker("begin", idx)
+			unguard := trGuard(em, idx, "ws-lockstep", map[string]any{"what": sc.Tag, "limit": sc.Limit}, []string{"ws:" + sc.Tag})
 			steps, desc, big, bad := runWs(t, sc)
+			unguard()
 			ops := make([]string, len(sc.Acts))
 			for i, a := range sc.Acts {
 				ops[i] = a.Op
@@ -395,7 +401,7 @@ func TestC19Ws(t *testing.T) {
 	small := []genEnv{{E: &Rpc{Id: 7, Header: &goatorepo.RequestHeader{Method: "/s/m", Source: "a", Destination: "b"}, Body: &goatorepo.Body{Data: []byte("payload")}}},
 		{E: &Rpc{Id: 1<<64 - 1, Status: &goatorepo.ResponseStatus{Code: 5, Message: "né"}, Trailer: &goatorepo.Trailer{}}}}
 	hw := handWrittenWire()
-	alphabet := []wsAct{{Op: "W", E: 0}, {Op: "W", E: 1}, {Op: "R"}, {Op: "C"}, {Op: "X"},
+	alphabet := []wsAct{{Op: "W", E: 0}, {Op: "W", E: 1}, {Op: "R"}, {Op: "C"}, {Op: "X"}, {Op: "K"},
 		{Op: "T", Raw: []byte("hello")}, {Op: "T", Raw: wsValidRaw(small[0].E)},
 		{Op: "B", Raw: []byte{0xff, 0xff, 0xff}}, {Op: "B", Raw: hw["fields-reverse-order"]}, {Op: "B", Raw: hw["header-method-bad-utf8"]}, {Op: "B", Raw: []byte{}}}
 	maxLen := 3
@@ -411,6 +417,9 @@ func TestC19Ws(t *testing.T) {
 			return
 		}
 		for _, a := range alphabet {
+			if a.Op == "K" && (len(prefix) == 0 || prefix[len(prefix)-1].Op == "K") {
+				continue // a tick before anything happened, or right after a tick, says nothing
+			}
 			// cancelling without a Read in the sequence so far is a no-op: skip
 			if a.Op == "C" {
 				has := false
@@ -456,9 +465,12 @@ func TestC19Ws(t *testing.T) {
 					acts = append(acts, wsAct{Op: "B", Raw: b})
 				}
 			case 9:
-				if r.Intn(4) == 0 {
+				switch r.Intn(4) {
+				case 0:
 					acts = append(acts, wsAct{Op: "X"})
-				} else {
+				case 1:
+					acts = append(acts, wsAct{Op: "K"})
+				default:
 					acts = append(acts, wsAct{Op: "R"})
 				}
 			}
